@@ -216,7 +216,7 @@ let do_entities () : ostring =
 let handle toks =
   (match toks with
    | ["new"] -> ents := []; "OK -"
-   | ["validate"] -> do_validate ()
+   | ["validate"] | ["vlive"] -> do_validate ()
    | ["entities"; _] -> do_entities ()
    | "h5" :: op :: e :: rest ->
      let x = get e in
@@ -267,6 +267,24 @@ let handle toks =
       | ["section"; p; n; t] -> push (blank 'S' (if p = "-" then -1 else ord p) n t)
       | ["prop"; s; n; k] -> push { (blank 'p' (ord s) n "") with nvals = oint_of_string k }
       | ["punit"; p; u] -> (get p).punit <- Some (dec_str u)
+      (* edits of existing entities *)
+      | ["dnounit"; a; k] -> (dim_of (get a) (ord k)).dunit <- None
+      | ["anounit"; a] -> (get a).aunit <- None
+      | ["anopoly"; a] -> (get a).poly <- 0
+      | ["anoorigin"; a] -> (get a).origin <- false
+      | "dlabels" :: a :: k :: vals -> (dim_of (get a) (ord k)).labels <- OLst.map dec_str (counted vals)
+      | "dticks" :: a :: k :: vals -> (dim_of (get a) (ord k)).ticks <- OLst.map dec_dbl (counted vals)
+      | ["dinterval"; a; k; v] -> (dim_of (get a) (ord k)).interval <- Some (dec_dbl v)
+      | ["dnooffset"; a; k] -> (dim_of (get a) (ord k)).offset <- None
+      | ["frows"; f; n] -> (get f).rows <- oint_of_string n
+      | "aextent" :: a :: _ :: ext -> (get a).extent <- OLst.map oint_of_string ext
+      | ["deldims"; a] -> (get a).slots <- []
+      | ["fdata"; f; _] -> (get f).fdata <- true
+      | ["mpositions"; m; a] -> (get m).positions <- Some (ord a)
+      | ["pnounit"; p] -> (get p).punit <- None
+      | ["pvalues"; p; n] -> (get p).nvals <- oint_of_string n
+      | ["etype"; e; ty] -> (get e).typ <- Some ty
+      | ["unref"; tg; a] -> let x = get tg in x.refs <- OLst.filter (fun r -> r <> ord a) x.refs
       | _ -> failwith ("bad command: " ^ OStr.concat " " toks));
      "OK -")
 let () = run_file OSys.argv.(1) handle
